@@ -74,7 +74,7 @@ func c14sSearches() []*c14sSearch {
 	thorough := vrep.Thorough()
 	dFull, dProt, dAcc := 3, 8, 5
 	if thorough {
-		dFull, dProt, dAcc = 4, 10, 6
+		dFull, dProt, dAcc = 4, 12, 7
 	}
 	dFull = c14sEnvInt("VERIF_C14S_DEPTH", dFull)
 	var out []*c14sSearch
@@ -90,6 +90,13 @@ func c14sSearches() []*c14sSearch {
 				d--
 			}
 			out = append(out, &c14sSearch{name: "full-alphabet/" + st.name, cfg: cfg, prefix: c14sOpsNamed(st.ops...), ops: full, depth: d})
+		}
+	}
+	// (low 1, high 3): with two connections the background tick does not trim yet, so the first trim of these
+	// start states is the explicit one (with high=2 the tick inside the start prefix has already closed a peer)
+	for _, st := range c14sStarts {
+		if st.name == "two-eligible" || (thorough && (st.name == "three-eligible" || st.name == "mixed-ages")) {
+			out = append(out, &c14sSearch{name: "full-alphabet/" + st.name, cfg: c14sCfg{1, 3}, prefix: c14sOpsNamed(st.ops...), ops: full, depth: dFull})
 		}
 	}
 	return out
@@ -129,7 +136,7 @@ func TestVerifC14Seq(t *testing.T) {
 	r := vrep.New("C14", "seq")
 	r.Bounds["universe"] = "peers A,B (same segment) and C; connections A1 A2 B1 B2 C1 C2 (inbound/outbound, 0/1 streams)"
 	r.Bounds["alphabet"] = fmt.Sprintf("%d operations: Connected/Disconnected x6 each, TagPeer(p,x|y,0|5|10), UntagPeer(p,x|y), UpsertTag(p,x|y,+5|-5), Bump(p,d,+5), Remove(p,d), Protect/Unprotect(p,a|b), Advance(5s|10s), TrimOpenConns, ForceTrim", len(c14sOpTab))
-	r.Bounds["config"] = "grace 10s, silence 5s (background tick every 5s), decayer resolution 5s, (low,high) in {(1,2),(2,3)}"
+	r.Bounds["config"] = "grace 10s, silence 5s (background tick every 5s), decayer resolution 5s, (low,high) in {(1,2),(2,3)} and (1,3) for some start states"
 	if s := c14sPeerIDs; len(s[0]) == 0 || s[0][len(s[0])-1] != s[1][len(s[1])-1] || s[0][len(s[0])-1] == s[2][len(s[2])-1] {
 		r.Note("universe: peer IDs do not have the intended last bytes")
 	}
@@ -144,7 +151,7 @@ func TestVerifC14Seq(t *testing.T) {
 		sp := s.spec(t, st)
 		res := seqmc.Run(sp)
 		all = append(all, done{sp.Name, res})
-		depths = append(depths, fmt.Sprintf("%s low=%d: %d", s.name, s.cfg.low, res.DepthDone))
+		depths = append(depths, fmt.Sprintf("%s low=%d high=%d: %d", s.name, s.cfg.low, s.cfg.high, res.DepthDone))
 	}
 	r.Bounds["depth_completed"] = depths
 	for i, n := range c14sOutcomeNames {
